@@ -89,6 +89,8 @@ pub struct Delivered {
     pub last_before: Option<u32>,
     /// was a reference session present when the frame was judged
     pub joined_before: bool,
+    /// position of the frame in its window's list in the script
+    pub slot: usize,
 }
 
 /// Structured form of an nb_device response (for the oracles).
@@ -597,9 +599,9 @@ impl Env {
         }
         let at = self.trace.len();
         self.push(Ev::Deliver { win, len: bytes.len(), verdict: verdict.short(), spec: spec.kind() });
-        self.now_ms += 1;
         let op = self.op_idx;
-        self.delivered.push(Delivered { op, win, rf, bytes, verdict, spec_kind: spec.kind(), at, last_before, joined_before });
+        let slot = self.cursor[Self::win_index(win)].saturating_sub(1);
+        self.delivered.push(Delivered { op, win, rf, bytes, verdict, spec_kind: spec.kind(), at, last_before, joined_before, slot });
         n
     }
 
@@ -656,7 +658,6 @@ impl Env {
             }
             None => {
                 self.push(Ev::RxSingle { outcome: "RxTimeout".into(), pos });
-                self.now_ms += 100;
                 Ok(aradio::RxStatus::RxTimeout)
             }
         }
